@@ -37,7 +37,7 @@ Cl(nm, ok) == IF ok THEN << >> ELSE << nm >>
 Clauses(r) ==
   IF r.raised
   THEN Cl("no-exception-on-positive-definite-system", ~ r.spd)
-  ELSE IF ~ WellFormed(r) THEN << "malformed-result" >>
+  ELSE IF r.api # "mapped" /\ ~ WellFormed(r) THEN << "malformed-result" >>
   ELSE CASE r.api = "solve" ->
               Cl("unconstrained-solves-normal-equations", \A k \in 1 .. r.n : Abs(Grad(r, k)) <= Tol(r, k))
          [] r.api \in {"nnls", "forced"} ->
@@ -52,14 +52,18 @@ Clauses(r) ==
                     "opt" \in DOMAIN r => \A k \in 1 .. r.n : Abs(r.sigma[k] - r.opt[k]) <= 2 + r.gamma \div 10000000)
          [] r.api = "mapped" ->
               \* per-object model data: m_o[k]*gamma = SUM_j B_o[k][j]*sigma_o[j]; objects sum to the total
+              \* bm = round(B_o*alphaB), sigma = round(s_o*gamma), m = round(m_o*alphaB*gamma): rounding bound below
               Cl("per-object-model-data-is-B-times-s",
                  \A o \in DOMAIN r.objs :
                     \A k \in DOMAIN r.objs[o].m :
                        Abs(SumSeq([j \in DOMAIN r.objs[o].sigma |-> r.objs[o].bm[k][j] * r.objs[o].sigma[j]])
-                           - r.objs[o].m[k]) <= (SumSeq(AbsSeq(r.objs[o].bm[k])) + 1) \div 2 + 1)
+                           - r.objs[o].m[k])
+                         <= (SumSeq(AbsSeq(r.objs[o].bm[k])) + SumSeq(AbsSeq(r.objs[o].sigma))) \div 2 + 2
+                            + Abs(r.objs[o].m[k]) \div 10000000)
               \o Cl("objects-sum-to-total",
                     \A k \in DOMAIN r.total :
-                       Abs(SumSeq([o \in DOMAIN r.objs |-> r.objs[o].m[k]]) - r.total[k]) <= Len(r.objs) + 1)
+                       Abs(SumSeq([o \in DOMAIN r.objs |-> r.objs[o].m[k]]) - r.total[k])
+                         <= Len(r.objs) + 1 + Abs(r.total[k]) \div 10000000)
          [] OTHER -> << "unknown-api" >>
 
 \* signature: solver variant and whether the unconstrained solution has a non-positive entry (what the warm start guesses from)
@@ -74,7 +78,7 @@ TraceNext ==
          f == Clauses(r)
      IN IF f = << >> THEN TRUE
         ELSE PrintT(ToJson([k |-> "reject", i |-> i, id |-> r.id, clauses |-> f, sig |-> Sig(r),
-                            want |-> IF r.raised \/ ~ WellFormed(r) \/ r.api = "mapped" THEN << >>
+                            want |-> IF r.raised \/ r.api = "mapped" \/ ~ WellFormed(r) THEN << >>
                                      ELSE [grad |-> [k \in 1 .. r.n |-> Grad(r, k)], tol |-> [k \in 1 .. r.n |-> Tol(r, k)]]]))
   /\ i' = i + 1
   /\ UNCHANGED vars
